@@ -9,7 +9,7 @@ TECHNIQUE = 'bounded exhaustive enumeration of object graphs (every ordered tree
 LEVEL_TEXT = ('every graph up to the node bound is dumped and loaded with the real remote_pickle; oracle: per opt-in instance exactly one __getstate__(remote=True), restored through its __setstate__ exactly once if it has one, and the loaded graph is structurally equal (with sharing and cycles) to the original with remote states')
 LEVEL_NOTE = 'graphs beyond the node bound and class features outside the four variants (dict/tuple state, with/without __setstate__, base-class/duck-typed opt-in) are not explored'
 
-RISK = ('siblings2+', 'no-setstate', 'backedge-to-optin', 'optin-in-container-under-optin', 'tuple-state', 'duck', 'plain-top-with-optin-inside')
+RISK = ('siblings2+', 'no-setstate', 'falsy-state', 'backedge-to-optin', 'optin-in-container-under-optin', 'tuple-state', 'duck', 'plain-top-with-optin-inside')
 
 
 def tagstr(spec):
@@ -38,13 +38,21 @@ def check_graph(ctx, spec, protocol, sigs):
     except BaseException as e:  # noqa
         return fail(ctx, sigs, 'load-raises/' + type(e).__name__, spec, case, repr(e)[:200])
     sets = list(G.LOG)
+    nfalsy = sum(1 for _, cn in uids if cn == 'RFalsy')
     for uid, cn in uids:
+        if cn == 'RFalsy':
+            continue     # its remote state carries no uid; counted below
         ev = [e for e in sets if e[1] == uid and e[0] == 'set']
         want = 0 if cn == 'RNoSet' else 1
         if len(ev) != want:
             return fail(ctx, sigs, 'setstate-count', spec, case, {'uid': uid, 'class': cn, 'set_calls': len(ev)})
+    if sum(1 for e in sets if e == ('set', None)) != nfalsy:
+        return fail(ctx, sigs, 'setstate-count', spec, case, {'class': 'RFalsy', 'set_calls': sum(1 for e in sets if e == ('set', None)), 'instances': nfalsy})
     for o in nodes:
-        if type(o).__name__ in G.VARIANTS:
+        if type(o).__name__ == 'RFalsy':
+            o.__dict__.clear()
+            o.__dict__['_rebuilt'] = True
+        elif type(o).__name__ in G.VARIANTS:
             o.__dict__['_how'] = 'remote'
     a, b = G.canon(g), G.canon(h)
     if a != b:
@@ -104,13 +112,17 @@ def run(ctx):
     kinds = ('L', 'T', 'D', 'P', 'R')
     for n in range(1, n_max + 1):
         for t in G.gen_trees(n, kinds, G.VARIANTS if n <= 3 or not ctx.quick else ('RBase', 'RNoSet'), depth=4):
+            if any(s[0] == 'R' and s[1] == 'RFalsy' and s[2] for s in G._all(t)):
+                continue     # the falsy-state variant transmits nothing: only meaningful as a leaf
             if any(s[0] == 'R' for s in G._all(t)):
                 specs.append(t)
                 if n <= (3 if ctx.quick else 4):
                     specs.extend(G.with_backedges(t))
-    specs.extend(families())
-    for f in families():
+    fam = [f for f in families() if not any(s[0] == 'R' and s[1] == 'RFalsy' and s[2] for s in G._all(f))]
+    specs.extend(fam)
+    for f in fam:
         specs.extend(G.with_backedges(f)[:40])
+    specs = [t for t in specs if not any(s[0] == 'R' and s[1] == 'RFalsy' and s[2] for s in G._all(t))]
     ngood = 0
     for spec in specs:
         for p in protos:
